@@ -65,6 +65,14 @@ CHECKS["C17"] = dict(
     design="DESIGN.md section 5 C17",
     note="h5py replaced by an in-memory tree (faithful-store contract): bit fidelity of NaN/inf/denormals through the real library is outside the claim; exact real arithmetic; z3")
 
+CHECKS["C11"] = dict(
+    text="Bounded symbolic checking: solve()/vector_field_solve() of both fast-diagonalisation solvers run on a right-hand side of solver variables (prior solution and spectral buffer arbitrary); "
+         "the result is an exact affine form; QF_LRA queries show for every cell that the residual of the independently written Neumann 5/7-point negative Laplacian and the mean of the solution "
+         "stay below a stated tolerance for all right-hand sides in [-1,1]^n, that nothing depends on prior buffer contents and that vector components do not mix. Exceptions/dtype are decided on "
+         "a numeric witness run of the real code.",
+    technique="symbolic execution of the real solve() on affine forms (concrete LAPACK eigen-tables as exact rationals) + z3 QF_LRA tolerance query per cell",
+    design="DESIGN.md section 5 C11")
+
 NOT_APPLICABLE = {
     "C02": "convergence of whole simulations over resolution families: thousands of time steps of floating-point code on 32^2..128^2 grids; no bound on steps/sizes under which a solver query is still the property (DESIGN.md section 5 C02). Its solver-decidable ingredients are claimed under C01, C03, C05, C16.",
 }
